@@ -389,18 +389,13 @@ func (vfs *MemFS) Lstat(path string) (fs.FileInfo, error) {
 		op = "CreateFile"
 	}
 
-	_, child, pi, err := vfs.searchNode(path, slmLstat)
+	_, child, _, err := vfs.searchNode(path, slmLstat)
 	if err != vfs.err.FileExists || child == nil {
 		return nil, &fs.PathError{Op: op, Path: path, Err: err}
 	}
 
-	name := pi.Part()
-	if child == node(vfs.rootNode) || name == "" {
-		// the name of a root directory is the path separator.
-		name = string(vfs.PathSeparator())
-	}
-
-	fst := child.fillStatFrom(name)
+	// the name is the last element of the path as it was given ("." for ".", the separator for a root directory).
+	fst := child.fillStatFrom(vfs.Base(path))
 	if fst.nlink == 0 && fst.mode.IsRegular() {
 		// the file has been removed since the search.
 		return nil, &fs.PathError{Op: op, Path: path, Err: vfs.err.NoSuchFile}
@@ -1066,18 +1061,13 @@ func (vfs *MemFS) Stat(path string) (fs.FileInfo, error) {
 		op = "CreateFile"
 	}
 
-	_, child, pi, err := vfs.searchNode(path, slmStat)
+	_, child, _, err := vfs.searchNode(path, slmStat)
 	if err != vfs.err.FileExists || child == nil {
 		return nil, &fs.PathError{Op: op, Path: path, Err: err}
 	}
 
-	name := pi.Part()
-	if child == node(vfs.rootNode) || name == "" {
-		// the name of a root directory is the path separator.
-		name = string(vfs.PathSeparator())
-	}
-
-	fst := child.fillStatFrom(name)
+	// the name is the last element of the path as it was given ("." for ".", the separator for a root directory).
+	fst := child.fillStatFrom(vfs.Base(path))
 	if fst.nlink == 0 && fst.mode.IsRegular() {
 		// the file has been removed since the search.
 		return nil, &fs.PathError{Op: op, Path: path, Err: vfs.err.NoSuchFile}
